@@ -617,7 +617,11 @@ def spherematch(ra1, dec1, ra2, dec2, matchlength, chunksize=None,
     #
     # Set default values
     #
-    if chunksize is None:
+    if chunksize is not None:
+        if chunksize < 4.0*matchlength:
+            chunksize = 4.0*matchlength
+            warn("chunksize changed to {0:.2f}.".format(chunksize), PydlutilsUserWarning)
+    else:
         chunksize = max(4.0*matchlength, 0.1)
     #
     # Check input size
